@@ -422,9 +422,3 @@ func firstLine(s string) string {
 	}
 	return s
 }
-
-func sampleMaybe(v interface{}, cond bool) {
-	if cond && ev.WantSample() {
-		ev.Sample(v)
-	}
-}
